@@ -220,6 +220,23 @@ func execEngine(args []string) string {
 			return "res=panic p.total=0"
 		}
 		return fmt.Sprintf("res=ok sp=%s msgs=%s p.total=1", spStr(sp), canonGoMsgs(out))
+	case "gof":
+		// gof <expected sp> <expected notimpl count> <tokens…>: a grammatical go line with the values it must yield
+		toks := make([]string, 0, len(args)-3)
+		for _, a := range args[3:] {
+			b, _ := hexDecode(a)
+			toks = append(toks, string(b))
+		}
+		var sp search.SearchParameter
+		out, pan := captureStdout(func() { sp = game.VerifParseGo(toks) })
+		if pan {
+			return "res=panic p.total=0 p.faithful=0"
+		}
+		msgs := canonGoMsgs(out)
+		ni := strings.Count(msgs, "notimpl:")
+		want, _ := strconv.Atoi(args[2])
+		clean := strings.Count(msgs, ";")+1 == ni || msgs == "-"
+		return fmt.Sprintf("res=ok sp=%s msgs=%s p.total=1 p.faithful=%s", spStr(sp), msgs, b2s(spStr(sp) == args[1] && ni == want && clean))
 	case "prep":
 		toks := make([]string, 0, len(args)-1)
 		for _, a := range args[1:] {
@@ -671,6 +688,51 @@ func goOps(o *Out, seed uint64, n int) {
 				continue // strings.Fields never produces such tokens
 			}
 			hs = append(hs, hexOf(t))
+		}
+		if mode < 6 {
+			// grammatical line: interpret the items left to right (independent statement of the expected parameters)
+			var w [8]int64
+			inf := len(toks) == 0
+			ni := 0
+			okDomain := true
+			for j := 0; j < len(toks); j++ {
+				if toks[j] == "infinite" {
+					inf = true
+					continue
+				}
+				v, err := strconv.ParseInt(toks[j+1], 10, 64)
+				if err != nil {
+					okDomain = false
+					break
+				}
+				switch toks[j] {
+				case "wtime":
+					w[0] = v
+				case "btime":
+					w[1] = v
+				case "winc":
+					w[2] = v
+				case "binc":
+					w[3] = v
+				case "movestogo":
+					w[4] = v
+				case "depth":
+					if v < 0 || v > 255 {
+						okDomain = false
+					}
+					w[5] = v
+				case "movetime":
+					w[6] = v
+				case "nodes", "mate":
+					ni++
+				}
+				j++
+			}
+			if okDomain {
+				exp := fmt.Sprintf("%d,%d,%d,%d,%d,%d,%d,%s", w[0], w[1], w[2], w[3], w[4], w[5], w[6], b2s(inf))
+				o.Run(strings.TrimSpace(fmt.Sprintf("gof %s %d %s", exp, ni, strings.Join(hs, " "))))
+				continue
+			}
 		}
 		o.Run(strings.TrimSpace("go " + strings.Join(hs, " ")))
 	}
